@@ -33,10 +33,15 @@ PARTIAL = ('proved for all inputs (Properties/C17.v): from_automaton_den for con
            'with non-negative start sites the pre-simplify graph can never fail is_consistent, and for a non-empty list it is well formed '
            'with glength = L; through C16, simplify() then returns a well-formed (hence consistent) graph with the same meaning, the same '
            'length L and no more nodes/edges. Side conditions shown necessary by kernel-checked examples (inconsistent automaton with a '
-           'dangling node and length 1 instead of 3; empty tree list; negative start site). Not proved in general, evaluated by the kernel '
-           'on every generated case instead (check_from_automaton, check_aut_den): that the three active-layer assertions of from_automaton '
-           'never fire when a path exists and that the model fuel of the level search suffices; graph length / consistency are still '
-           'evaluated per case as a cross-check of the theorems')
+           'dangling node and length 1 instead of 3; empty tree list; negative start site). Totality of from_automaton (section (e), '
+           'Proofs/C17AutFuel.v, Proofs/C17AutTotal.v): for every consistent automaton and every L >= 1, the model returns a graph (no '
+           'ValueError/KeyError/IndexError, none of the active-layer assertions nor the final is_consistent assertion fires, the model '
+           'fuel of the level search suffices) if and only if the automaton has a path of L steps between its terminals respecting the '
+           'site-dependent activity (executable predicate is_path of Model/AutOpPath.v, implied by a non-zero aut_den coefficient); '
+           'without such a path the model ends in the AssertionError of nids_active[0]; the assertion len(nids_active) == length + 1 is '
+           'not a branch of the model and is proved unreachable; the same fuel theorem makes is_consistent = Some true for the pre-simplify '
+           'tree graph. Nothing of the automaton part is left unproved at model level; graph length / consistency / error classes are still '
+           'evaluated per case (check_from_automaton, check_aut_den) as the model-to-code correspondence and a cross-check of the theorems')
 ASSUMPTIONS = ['CPython set iteration order does not influence from_automaton (active sets are intersected and sorted)',
                'operator maps are total on the operator ids in use and consist of square d x d matrices, d >= 1']
 
